@@ -31,6 +31,22 @@ func newCypherWalkCursorWithBranchPrefix[F any, FS []F](node cypher.SyntaxNode, 
 	return cursor
 }
 
+// newCypherWalkCursorWithExpressionPrefix is newCypherWalkCursorWithBranchPrefix for a prefix held in an interface-typed
+// field: only an absent prefix is skipped. A nil pointer stored in the field is a nil branch and stays in the cursor so
+// that the walk reports it, as it does for every other child.
+func newCypherWalkCursorWithExpressionPrefix[F any, FS []F](node cypher.SyntaxNode, prefix cypher.Expression, branches FS) *Cursor[cypher.SyntaxNode] {
+	cursor := &Cursor[cypher.SyntaxNode]{
+		Node:     node,
+		Branches: make([]cypher.SyntaxNode, 0, len(branches)+1),
+	}
+
+	if prefix != nil {
+		cursor.AddBranches(prefix)
+	}
+	addCypherBranches(cursor, branches)
+	return cursor
+}
+
 func newCypherWalkCursorWithMapItems(node cypher.SyntaxNode, mapLiteral cypher.MapLiteral) *Cursor[cypher.SyntaxNode] {
 	cursor := &Cursor[cypher.SyntaxNode]{
 		Node:     node,
@@ -378,7 +394,7 @@ func newCypherPredicateWalkCursor(node cypher.SyntaxNode) (*Cursor[cypher.Syntax
 func newCypherOperatorWalkCursor(node cypher.SyntaxNode) (*Cursor[cypher.SyntaxNode], bool) {
 	switch typedNode := node.(type) {
 	case *cypher.ArithmeticExpression:
-		return newCypherWalkCursorWithBranchPrefix(node, typedNode.Left, typedNode.Partials), true
+		return newCypherWalkCursorWithExpressionPrefix(node, typedNode.Left, typedNode.Partials), true
 
 	case *cypher.PartialArithmeticExpression:
 		nextCursor := &Cursor[cypher.SyntaxNode]{
@@ -398,7 +414,7 @@ func newCypherOperatorWalkCursor(node cypher.SyntaxNode) (*Cursor[cypher.SyntaxN
 		return nextCursor, true
 
 	case *cypher.Comparison:
-		return newCypherWalkCursorWithBranchPrefix(node, typedNode.Left, typedNode.Partials), true
+		return newCypherWalkCursorWithExpressionPrefix(node, typedNode.Left, typedNode.Partials), true
 
 	case *cypher.UnaryAddOrSubtractExpression:
 		nextCursor := &Cursor[cypher.SyntaxNode]{Node: node}
